@@ -36,12 +36,17 @@ def model(ctx, cfgs, negs, module='MCCluster'):
         _absorb(ctx, r, inv)
 
 
-def gen_cases(ctx, module, cfgs, limit, seed, path):
-    """Run generation configs (-workers 1, in parallel), keep a seeded sample of `limit` cases per config (0 = all)."""
+def gen_cases(ctx, module, cfgs, limit, seed, path, mc=None, negs=None):
+    """Run generation configs (-workers 1, in parallel), keep a seeded sample of `limit` cases per config (0 = all).
+    mc / negs: exhaustive and negative configs of MCCluster that run in the same pool (they are independent of the generation runs)."""
     rng = random.Random(seed)
     n = 0
-    with ThreadPoolExecutor(max_workers=WORKERS) as ex:
+    side = [(c, None) for c in (mc or [])] + list((negs or {}).items())
+    with ThreadPoolExecutor(max_workers=WORKERS + 2) as ex:
+        fside = [ex.submit(_tlc_retry, 'MCCluster', j[0], workers=2, timeout=1500) for j in side]
         results = list(ex.map(lambda c: _tlc_retry(module, c, workers=1, timeout=1500, collect_cases=True), cfgs))
+        for (c, inv), f in zip(side, fside):
+            _absorb(ctx, f.result(), inv)
     with open(path, 'w') as f:
         for c, r in zip(cfgs, results):
             ctx.tlc_runs.append(dict(r.summary(), cases=len(r.cases)))
@@ -73,7 +78,7 @@ def _validate_one(f):
 def validate_traces(ctx, tracedir):
     """One TLC run per trace file (run in parallel); a rejected trace is real-code behaviour the specification forbids."""
     files = sorted(glob.glob(os.path.join(tracedir, 'cluster-*.ndjson')))
-    with ThreadPoolExecutor(max_workers=WORKERS) as ex:
+    with ThreadPoolExecutor(max_workers=WORKERS + 2) as ex:
         results = list(ex.map(_validate_one, files))
     for f, r in results:
         n = sum(1 for _ in open(f))
@@ -99,8 +104,13 @@ def validate_traces(ctx, tracedir):
                         mo = re.search(r'\bop \|-> "([^"]+)"', body)
                         mr = re.search(r'\brep \|-> "([^"]+)"', body)
                         detail = '-%s-%s' % (mo.group(1) if mo else '', mr.group(1) if mr else '')
+                        mn = re.search(r'\bnode \|-> "([^"]+)"', body)
+                        if mn and mn.group(1) in ('a1', 'a2', 'b1'):
+                            detail += '-on-replica'
                     elif evname == 'Ret':
-                        detail = ''
+                        # the result kinds the call returned, in input order (e.g. val,ask,ask)
+                        kinds = [re.sub(r'[^A-Za-z]', '', k.split(':')[0])[:8] for k in re.findall(r'\bk \|-> "([^"]*)"', body)]
+                        detail = '-' + ','.join(kinds[:8]) if kinds else ''
                     what += 'no action of the specification explains recorded event #%s (%s): %s' % (m2.group(1), evname, body[:700])
                 else:
                     what += 'no action of the specification explains the next recorded event'
@@ -114,12 +124,12 @@ def validate_traces(ctx, tracedir):
             ctx.inconclusive.append('trace validation failed to run: %s\n%s' % (r.error, r.output[-2000:]))
 
 
-def sim(ctx, gen_cfgs, gen_limit, nrandom, focus=None, modes=None, tracefiles=4):
+def sim(ctx, gen_cfgs, gen_limit, nrandom, focus=None, modes=None, tracefiles=4, mc=None, negs=None):
     binp = vlib.build('clusterdrv')
     work = tempfile.mkdtemp(prefix='verif-cluster-', dir=vlib.SCRATCH_ROOT)
     try:
         scen = os.path.join(work, 'scen.ndjson')
-        n = gen_cases(ctx, 'MCCluster', gen_cfgs, gen_limit, ctx.seed, scen) if gen_cfgs else 0
+        n = gen_cases(ctx, 'MCCluster', gen_cfgs, gen_limit, ctx.seed, scen, mc=mc, negs=negs) if gen_cfgs else 0
         args = ['-mode', 'sim', '-random', str(nrandom), '-tracedir', work, '-tracefiles', str(tracefiles), '-parallel', '6']
         if n:
             args += ['-scen', scen]
